@@ -24,13 +24,16 @@ from ..sysutil import files_to_mods, make_system
 ID = "C07"
 RULE = ("packages with 1-3 implementation modules, 1-9 definitions, each exported object re-exported by exactly one module "
         "(5 import forms x 2 __all__ spellings x package/sibling; a renamed export may clash with an unrelated class of the defining module), 1-2 consumer modules with 1-4 uses each (7 ways of reaching x 5 ways "
-        "of using), x every reachable processing order (exhaustive when <= 120). Non-trivial when >=1 object is re-exported and >=1 "
+        "of using), x every reachable processing order (thorough: exhaustive when <= 120, else 64 evenly spaced; quick: exhaustive when <= 24, else 32). Non-trivial when >=1 object is re-exported and >=1 "
         "consumer reaches it through the defining module or an outdated name; distinct by hash of the abstract project.")
 ASSUMPTIONS = [
     "at most one re-exporter per object and the defining module does not list the object in its own __all__ (the statement's precondition)",
     "'leads to' = resolveName / Class.baseobjects / the href produced by the annotation linker or by link_xref is that object (its url)",
 ]
-MAX_ORDERS = 120
+import os as _os
+# exhaustive up to this many schedules, 64 evenly spaced ones beyond (quick tier: 24 / 32)
+MAX_ORDERS = 24 if _os.environ.get('VERIF_TIER_EFFECTIVE') == 'quick' else 120
+SAMPLED_ORDERS = 32 if _os.environ.get('VERIF_TIER_EFFECTIVE') == 'quick' else 64
 # input predicate: the consumer binds the object with `from <defining module> import X` and X is re-exported elsewhere
 STALE = 'import-from-defining-module-of-reexported-object'
 
@@ -123,6 +126,25 @@ def check_system(s: Any, proj: Dict[str, Any], meta: Dict[str, Any], order_desc:
             mk = by_id.get('ID:%d.%s' % (d['id'], mname), [])
             if mk != [want + '.' + mname]:
                 out.append(('member-registration', '%s: member %s of %s is registered as %s, expected %s' % (order_desc, mname, name, mk, [want + '.' + mname])))
+    # what a moved class carries: the annotation of one of its attributes still names the helper class of the module it was written in
+    for name, d in meta['defs'].items():
+        obj = target.get(name)
+        if obj is None or d['kind'] != 'class' or d.get('want'):
+            continue
+        helper = s.allobjects.get('p.%s.Hlp%s' % (d['mod'], d['mod']))
+        attr = obj.contents.get('ha')
+        if helper is None or attr is None:
+            continue
+        try:
+            from pydoctor import epydoc2stan
+            with contextlib.redirect_stdout(io.StringIO()):
+                h = _href(epydoc2stan.type2stan(attr))
+        except Exception as e:
+            out.append(('member-annotation', '%s: rendering the type of %s.ha raised %s: %s' % (order_desc, obj.fullName(), type(e).__name__, e)))
+            continue
+        if h is None or not (h == helper.url or helper.url.endswith(h)):
+            out.append(('member-annotation', '%s: the annotation Hlp%s of %s.ha (written in p.%s) links to %r, the helper class is at %r' % (
+                order_desc, d['mod'], obj.fullName(), d['mod'], h, helper.url)))
     # nested members are reachable by both the new and (through the alias left behind) the old qualified name
     for name, d in meta['defs'].items():
         obj = target.get(name)
@@ -182,8 +204,8 @@ def check_project(proj: Dict[str, Any], order_pick: Optional[int] = None) -> Tup
     orders = orders_for(mods, MAX_ORDERS)
     info: Dict[str, Any] = {'orders_total': len(orders), 'exhaustive': len(orders) <= MAX_ORDERS}
     if len(orders) > MAX_ORDERS:
-        step = len(orders) / 64.0
-        orders = [orders[int(i * step)] for i in range(64)]
+        step = len(orders) / float(SAMPLED_ORDERS)
+        orders = [orders[int(i * step)] for i in range(SAMPLED_ORDERS)]
     info['orders_run'] = len(orders)
     out: List[Tuple[str, str]] = []
     seen = set()
